@@ -141,12 +141,10 @@ CLAIMS = {
         "is decided for every 64-bit register image, slot, length and condition against the Intel SDM layout; "
         "HardwareBreakpoint::{enable, disable, address_already_observed} are decided as one inductive step from an arbitrary "
         "invariant state of two threads' debug registers (slot choice, reuse, fifth-watchpoint refusal without side effects, no "
-        "stale enable bits, same image to every thread); a thread created later receives exactly the registry's last image; "
-        "after a restart WatchpointRegistry::refresh re-arms every surviving watchpoint (two, symbolic addresses / lengths / conditions) "
-        "in every thread, the cached image equals the hardware image and a thread created afterwards inherits all of them.",
+        "stale enable bits, same image to every thread); a thread created later receives exactly the registry's last image.",
         "Trusted: Kani/CBMC/CaDiCaL; stubs of ptrace::read_user/write_user onto a static u_debugreg model; std HashMap replaced by an "
-        "association-list model in tracee.rs. Outside the claim: scoped watchpoints (companion breakpoints), expression watchpoints across a restart, "
-        "that the CPU raises #DB, old/new value rendering, more than two threads.",
+        "association-list model in tracee.rs. Outside the claim: scoped watchpoints (companion breakpoints), survival across restart "
+        "(WatchpointRegistry::refresh: out of solver memory), that the CPU raises #DB, old/new value rendering, more than two threads.",
         "DESIGN.md section 6, C14"),
     "C15": (
         "Bounded model checking of the word-granular memory kernels and the register file: read_memory_by_pid returns exactly "
